@@ -1312,4 +1312,169 @@ theorem C13_history_continuous_coherent_partial (hstrict : Gen.ResampleSrc.contC
 #guard (convCullWith true exCont6.pub 3).toOption.map (fun r => (r.1.timestep, r.2.length)) = some (3, 72)
 #guard convCullWith true exCont6.pub 7 = .error .assert
 
+/-! ### Header with the wrong leap flag (round 6)
+
+The steps of an hourly collection carry a leap flag of their own (`dl`); the header period carries
+another (`ap.leap`).  The model has no hidden year: it decides on days of the year (each side counted in
+its own kind of year), exactly as the code does; a comparison through the rich ordering of the `DateTime`
+objects (which carries the year 2016 / 2017) would not be a function of these numbers. -/
+
+/-- **The leap flag of the validated period**, for every header and every leap flag of the steps:
+    the output period is a leap year exactly when the header was one or a step lies on 29 Feb.  So leap
+    steps with 29 Feb among them under a header that is not flagged leap give a leap period. -/
+theorem C13_validate_leap_mix_flag {α : Type} (ap : AP) (dl : Bool) (data : List (Nat × α))
+    (v : Validated (Nat × α)) (h : validateHourly ap dl data = .ok v) :
+    v.ap.leap = (ap.leap || data.any fun p => decide (mdOf dl p.1 = (2, 29))) := by
+  obtain ⟨h1, -, -, -⟩ := validateHourly_ok ap dl data v h
+  obtain ⟨first, last, -, -, hmk⟩ := validateHourly_mk ap dl data v h
+  have hlp := (AP.C04_mk_wf _ _ _ _ _ _ _ _ _ hmk).2.1
+  have hperm := C13_validate_hourly_perm ap dl data v h
+  rw [hlp, ← h1, hperm.any_eq]
+
+/-- **Widening of a non-wrapping, non-annual header is decided on days of the year and takes the date of
+    the step**, whatever the leap flags of header and steps (`dl` need not be `ap.leap`): when the day of
+    the year of the earliest step is below that of the header start, the output period starts on the
+    month and day of that step; when the day of the year of the latest step is above that of the header
+    end, the output period ends in the month of that step, on its day. -/
+theorem C13_validate_leap_mix_widens {α : Type} (ap : AP) (dl : Bool) (data : List (Nat × α))
+    (v : Validated (Nat × α)) (h : validateHourly ap dl data = .ok v)
+    (hf : ap.isReversed = false) (hA : ap.isAnnual = false)
+    (hyr : ∀ x ∈ data, x.1 < minutesInYear dl) :
+    ∃ first last,
+      (sortByKey (fun p : Nat × α => p.1) data).head? = some first ∧
+      (sortByKey (fun p : Nat × α => p.1) data).getLast? = some last ∧
+      (doyOfMoy first.1 < ap.stTime.doy → (v.ap.st_month, v.ap.st_day) = mdOf dl first.1) ∧
+      (doyOfMoy last.1 > ap.endTime.doy → v.ap.end_month = (mdOf dl last.1).1 ∧
+        (v.ap.end_day = (mdOf dl last.1).2 ∨
+          (v.ap.end_day < (mdOf dl last.1).2 ∧ v.ap.end_day = monthLen v.ap.leap v.ap.end_month))) := by
+  obtain ⟨first, last, hfst, hlst, hmk⟩ := validateHourly_mk ap dl data v h
+  have hg2 : (reorder ap.isReversed (fun p : Nat × α => decide (p.1 < ap.endMoy + 60))
+      (fun f : Nat × α => decide (doyOfMoy f.1 > ap.endTime.doy ∧ doyOfMoy f.1 < ap.stTime.doy))
+      (sortByKey (fun p : Nat × α => p.1) data)).2 = false := by
+    rw [hf]; simp [reorder]
+  rw [hg2] at hmk
+  simp only [Bool.false_eq_true, if_false] at hmk
+  have hmemS : ∀ x ∈ sortByKey (fun p : Nat × α => p.1) data, x ∈ data :=
+    fun x hx => (sortByKey_perm _ data).mem_iff.mp hx
+  have hfy := hyr first (hmemS first (List.mem_of_mem_head? hfst))
+  have hly := hyr last (hmemS last (List.mem_of_mem_getLast? hlst))
+  obtain ⟨m1, -, m3, -, -, -⟩ := mdOf_spec dl first.1 hfy
+  obtain ⟨n1, -, n3, -, -, -⟩ := mdOf_spec dl last.1 hly
+  obtain ⟨-, -, hsm, hsd, -, hem, -, -, hed⟩ := AP.C04_mk_wf _ _ _ _ _ _ _ _ _ hmk
+  refine ⟨first, last, hfst, hlst, ?_, ?_⟩
+  · intro c
+    rw [if_pos ⟨⟨hf, hA⟩, c⟩] at hsm hsd
+    simp only [AP.orD] at hsm hsd
+    have e1 : v.ap.st_month = (mdOf dl first.1).1 := by split at hsm <;> omega
+    have e2 : v.ap.st_day = (mdOf dl first.1).2 := by split at hsd <;> omega
+    rw [e1, e2]
+  · intro c
+    rw [if_pos ⟨⟨hf, hA⟩, c⟩] at hem hed
+    simp only [AP.orD] at hem hed
+    have e3 : v.ap.end_month = (mdOf dl last.1).1 := by split at hem <;> omega
+    refine ⟨e3, ?_⟩
+    rcases hed with hed | ⟨hlt, heq⟩
+    · left; split at hed <;> omega
+    · right
+      refine ⟨by split at hlt <;> omega, ?_⟩
+      rw [(AP.C04_mk_wf _ _ _ _ _ _ _ _ _ hmk).2.1]
+      exact heq
+
+-- leap steps with 29 Feb under a common-year header that ends before the last step: the period becomes a leap
+-- year, ends on the day of the last step (4 Jul) and contains every step
+#guard (validateHourly ⟨6, 21, 0, 6, 21, 23, 1, false⟩ true
+    [(((31 + 29 + 31 + 30 + 31 + 30 + 3) * 24 + 12) * 60, 4), ((59 * 24 + 12) * 60, 1),
+     (((31 + 29 + 31 + 30 + 31 + 20) * 24 + 12) * 60, 2)]).toOption.map
+  (fun v => (v.ap, v.data.map fun p => v.ap.includesMoy p.1)) = some (⟨2, 29, 0, 7, 4, 23, 1, true⟩, [true, true, true])
+-- mirror: common-year steps under a leap header that starts after the first step
+#guard (validateHourly ⟨6, 21, 0, 6, 23, 23, 1, true⟩ false
+    [(((31 + 28 + 31 + 29) * 24 + 23) * 60, 1), (((31 + 28 + 31 + 30 + 31 + 21) * 24 + 12) * 60, 2)]).toOption.map
+  (fun v => (v.ap.st_month, v.ap.st_day, v.ap.end_month, v.ap.end_day, v.ap.leap)) = some (4, 30, 6, 23, true)
+
+-- the recorded finding C13-hourly-leap-mix-day-of-year evaluated: header 3/1 - 3/31 of a common year, leap steps on
+-- 29 Feb 22:00 (day 60 of the leap year = day of the year of the header start, 1 Mar of a common year) and 15 Mar
+#guard (validateHourly ⟨3, 1, 0, 3, 31, 23, 1, false⟩ true [(106560 + 720, 2), (86280, 1)]).toOption.map
+  (fun v => (v.ap, v.data.map fun p => v.ap.includesMoy p.1)) = some (⟨3, 1, 0, 3, 31, 23, 1, true⟩, [false, true])
+
+/-- A month of a common year is never longer than the same month of any year. -/
+theorem C13_common_year_month_le (b : Bool) (m : Nat) : monthLen false m ≤ monthLen b m := by
+  cases b
+  · exact Nat.le_refl _
+  · unfold monthLen monthLens
+    rcases m with _ | _ | _ | _ | _ | _ | _ | _ | _ | _ | _ | _ | _ | _ | m <;> simp
+
+/-- **The widened end is exactly the date of the latest step** (no clamping to the month's end), for every
+    pair of leap flags: when the day of the year of the latest step is above that of the end of a
+    non-wrapping, non-annual header, the output period ends on the month and day of that step. -/
+theorem C13_validate_leap_mix_end {α : Type} (ap : AP) (dl : Bool) (data : List (Nat × α))
+    (v : Validated (Nat × α)) (h : validateHourly ap dl data = .ok v)
+    (hf : ap.isReversed = false) (hA : ap.isAnnual = false)
+    (hyr : ∀ x ∈ data, x.1 < minutesInYear dl) :
+    ∃ last, (sortByKey (fun p : Nat × α => p.1) data).getLast? = some last ∧
+      (doyOfMoy last.1 > ap.endTime.doy → (v.ap.end_month, v.ap.end_day) = mdOf dl last.1) := by
+  obtain ⟨first, last, hfst, hlst, hw1, hw2⟩ := C13_validate_leap_mix_widens ap dl data v h hf hA hyr
+  refine ⟨last, hlst, ?_⟩
+  intro c
+  obtain ⟨e3, hd⟩ := hw2 c
+  have hflag := C13_validate_leap_mix_flag ap dl data v h
+  have hmemS : ∀ x ∈ sortByKey (fun p : Nat × α => p.1) data, x ∈ data :=
+    fun x hx => (sortByKey_perm _ data).mem_iff.mp hx
+  have hlmem : last ∈ data := hmemS last (List.mem_of_mem_getLast? hlst)
+  have hly := hyr last hlmem
+  obtain ⟨n1, n2, n3, n4, -, -⟩ := mdOf_spec dl last.1 hly
+  -- the day of the step exists in its month of the output year
+  have hle : (mdOf dl last.1).2 ≤ monthLen v.ap.leap (mdOf dl last.1).1 := by
+    cases hdl : dl
+    · rw [hdl] at n4
+      exact Nat.le_trans n4 (C13_common_year_month_le _ _)
+    · cases hvl : v.ap.leap
+      · -- no step on 29 Feb, so the day also exists in the common year
+        rw [hvl] at hflag
+        have hany : (data.any fun p => decide (mdOf dl p.1 = (2, 29))) = false := by
+          cases hx : (data.any fun p => decide (mdOf dl p.1 = (2, 29)))
+          · rfl
+          · rw [hx] at hflag; simp at hflag
+        have hne : mdOf dl last.1 ≠ (2, 29) := by
+          intro he
+          have : (data.any fun p => decide (mdOf dl p.1 = (2, 29))) = true :=
+            List.any_eq_true.mpr ⟨last, hlmem, by simp [he]⟩
+          rw [hany] at this; cases this
+        rw [hdl] at n1 n2 n3 n4 hne
+        revert n4 hne n3
+        generalize (mdOf true last.1) = md at n1 n2 ⊢
+        obtain ⟨mm, dd⟩ := md
+        simp only at n1 n2 ⊢
+        unfold monthLen monthLens
+        rcases mm with _ | _ | _ | _ | _ | _ | _ | _ | _ | _ | _ | _ | _ | _ | mm <;> simp <;> omega
+      · rw [hdl] at n4; exact n4
+  rcases hd with hd | hd
+  · rw [e3, hd]
+  · -- clamped: impossible, the constructor only clamps a day that does not exist in the month
+    obtain ⟨hlt, heq⟩ := hd
+    rw [e3] at heq
+    omega
+
+-- the daily analogue (recorded finding C13-daily-leap-mix-day-of-year): day 366 makes the period a leap year, whose
+-- start 6/26 is day 178; day 177 (25 Jun) is not one of its days
+#guard (validateDaily ⟨6, 26, 1, 6, 26, 22, 1, false⟩ [(177, 1), (366, 2)]).toOption.map
+  (fun v => (v.ap, v.ap.stTime.doy, v.ap.doysInt.contains 177, v.ap.doysInt.contains 366)) =
+  some (⟨6, 26, 1, 12, 31, 22, 1, true⟩, 178, false, true)
+
+/-- **Recorded finding (daily collection, day 366 under a header that is not flagged leap)**: the header start
+    6/26 is day 177 when counted in the common year of the header, so day 177 does not move the start; the
+    output period is a leap year (day 366), where 6/26 is day 178: day 177 is not among its days. -/
+theorem C13_validate_daily_leap_mix_counterexample :
+    (⟨6, 26, 1, 6, 26, 22, 1, false⟩ : AP).stTime.doy = 177 ∧
+    (⟨6, 26, 1, 12, 31, 22, 1, true⟩ : AP).stTime.doy = 178 ∧
+    177 ∉ (⟨6, 26, 1, 12, 31, 22, 1, true⟩ : AP).doysInt := by decide +kernel
+
+/-- **Recorded finding (header with the wrong leap flag, day-of-year tie)**: the day of the year of a leap
+    step after February is one more than that of the same calendar date in a common year, so 29 Feb (day 60)
+    is not below the start 1 Mar of a common-year header (day 60): the start is kept, the period (now a leap
+    year, because of 29 Feb) is 3/1 – 3/31, and 29 Feb 22:00 (minute 86280 of the leap year) is not a step
+    of it. -/
+theorem C13_validate_leap_mix_counterexample :
+    doyOfMoy 86280 = 60 ∧ (⟨3, 1, 0, 3, 31, 23, 1, false⟩ : AP).stTime.doy = 60 ∧ mdOf true 86280 = (2, 29) ∧
+    ¬ (⟨3, 1, 0, 3, 31, 23, 1, true⟩ : AP).Pred 86280 := by decide
+
 end Resample
